@@ -276,10 +276,16 @@ fn roundtrip_monitor<V: Val>(
     trailing: &[u8],
 ) -> Option<Pma<V>> {
     let bytes = p.serialize();
-    let mut buf = bytes.clone();
-    buf.extend_from_slice(trailing);
-    let (q, rest) = unsafe { Pma::<V>::deserialize(spec.variant, &buf) };
+    // the image may sit anywhere in the caller's buffer: behind a header of any length (so at any
+    // alignment), and in front of trailing bytes
+    let lead = (bytes.len() + trailing.len()) % 9 % 8; // 0..=7, deterministic per case
+    let mut whole: Vec<u8> = vec![0xEE; lead];
+    whole.extend_from_slice(&bytes);
+    whole.extend_from_slice(trailing);
+    let buf = &whole[lead..];
+    let (q, rest) = unsafe { Pma::<V>::deserialize(spec.variant, buf) };
     ctx.rep.count("round_trips", 1);
+    ctx.rep.count(&format!("round_trips_at_buffer_offset_{lead}"), 1);
     ctx.rep.count("serialized_bytes_total", bytes.len() as u64);
     let mut problems: Vec<String> = Vec::new();
     if rest.len() != trailing.len() || rest != trailing {
@@ -292,7 +298,29 @@ fn roundtrip_monitor<V: Val>(
         problems.push("remainder does not start right after the serialised automaton".into());
     }
     if let Some(false) = V::pma_equal(p, &q) {
-        problems.push("restored automaton != original (PartialEq)".into());
+        problems.push(format!("restored automaton != original (PartialEq) [image placed at offset {lead} of the buffer]"));
+    }
+    // two images back to back: the remainder of the first call is the input of the second
+    if problems.is_empty() && bytes.len() < 200_000 {
+        let mut two = bytes.clone();
+        two.extend_from_slice(&bytes);
+        two.extend_from_slice(trailing);
+        let (q1, r1) = unsafe { Pma::<V>::deserialize(spec.variant, &two) };
+        if r1.len() != bytes.len() + trailing.len() {
+            problems.push("two images back to back: the first call did not consume exactly one image".into());
+        } else {
+            let (q2, r2) = unsafe { Pma::<V>::deserialize(spec.variant, r1) };
+            ctx.rep.count("back_to_back_round_trips", 1);
+            if r2 != trailing {
+                problems.push("two images back to back: the second call did not hand back the trailing bytes".into());
+            }
+            if let (Some(false), _) | (_, Some(false)) = (V::pma_equal(p, &q1), V::pma_equal(p, &q2)) {
+                problems.push("two images back to back: a restored automaton != original".into());
+            }
+            if q2.serialize() != bytes {
+                problems.push("two images back to back: the second restored automaton re-serialises to different bytes".into());
+            }
+        }
     }
     let again = q.serialize();
     if again != bytes {
